@@ -170,5 +170,5 @@ MeshConsistent(d) == LET mp == MP!GetMpGrid(Triples(d["kpoints"].q), KDEN) IN
 SetItem(d, k, v) == (k :> v) @@ d
 DelItem(d, k) == [j \in DOMAIN d \ {k} |-> d[j]]          \* a key that is not there: a warning, nothing else
 Update(d, e) == e @@ d
-Contains(d, k) == k \in DOMAIN d
+HasKey(d, k) == k \in DOMAIN d
 =============================================================================
